@@ -176,7 +176,62 @@ def mstdpet_wiring(c):
     c.ensure("all_record_in_training_only", all(m["train"] is True and m["evl"] is False for m in table.values()))
     c.canary("canary_eligibility_tau_is_tc_post", num(ep.fields["time_constant"]) == tc_post.z)
 
+
+D2 = "inferno/learn/trainers/delay_adj_two_factor_stdp.py"
+D3 = "inferno/learn/trainers/delay_adj_three_factor_stdp.py"
+KS = "inferno/learn/trainers/kernel_stdp.py"
+
+
+def _event_wiring(prop, cls, file, param, kernel):
+    """delay-adjusted / kernel rules work from last-spike TIMES: both monitors are event reducers that start at NaN
+    ("has not spiked yet"), the post side observes neuron.spike, the pre side the UNDELAYED synapse.spike (the rule
+    subtracts the learned delay itself), records one step, training mode only, trains `param`"""
+    @contract(prop, f"{cls}.register_cell", [(file, f"{cls}.register_cell"), (file, f"{cls}._build_cell_state")], tags=("wiring",))
+    def wiring(c, cls=cls):
+        lr_pos, lr_neg, tc_pos, tc_neg, tol = c.real("lr_pos"), c.real("lr_neg"), c.real("tc_pos"), c.real("tc_neg"), c.real("tol")
+        c.require(tc_pos > 0, tc_neg > 0, tol >= 0)
+        inplace = c.choice("inplace", [False, True])
+        if kernel:
+            fields = dict(kernel_post="<kpost>", kernel_pre="<kpre>", kernel_post_kwargs={}, kernel_pre_kwargs={}, tolerance=tol, batchreduce=None, inplace=inplace, delayed=False)
+        else:
+            fields = dict(lr_pos=lr_pos, lr_neg=lr_neg, tc_pos=tc_pos, tc_neg=tc_neg, tolerance=tol, batchreduce=None, inplace=inplace)
+        table, dt, dby, box = run_register(c, file, cls, fields, True)
+        raw = box["raw"]
+        c.ensure("monitor_names", sorted(table) == ["spike_post", "spike_pre"])
+        c.ensure("event_reducers", all(m["cls"] == "EventReducer" for m in table.values()))
+        c.ensure("post_side_observes_neuron_spikes", table["spike_post"]["attr"] == "neuron.spike")
+        c.ensure("pre_side_observes_undelayed_synapse_spikes", table["spike_pre"]["attr"] == "synapse.spike")
+        import math as _math
+
+        def is_nan(v):
+            return isinstance(v, float) and _math.isnan(v)
+
+        c.ensure("start_at_nan_not_spiked_yet", all(is_nan(m["red"].fields.get("_FoldReducer__fill")) for m in table.values()))
+        c.ensure("records_one_inclusive_step_with_connection_dt", z3.And(*[z3.And(m["incl"] is True, num(m["rdt"]) == dt.z, num(m["dur"]) == 0) for m in table.values()]))
+        c.ensure("record_in_training_only_as_posthooks", all(m["train"] is True and m["evl"] is False and m["prehook"] is False for m in table.values()))
+        c.ensure("trains_" + param, box.get("params") == [param])
+        st = box["state"]
+        if not kernel:
+            c.ensure("state_carries_the_hyperparameters", z3.And(num(st.fields["lr_pos"]) == lr_pos.z, num(st.fields["lr_neg"]) == lr_neg.z, num(st.fields["tc_pos"]) == tc_pos.z, num(st.fields["tc_neg"]) == tc_neg.z, num(st.fields["tolerance"]) == tol.z))
+        # pooling key: monitors may be shared between cells only if they agree on the step time (an `inplace` tag is
+        # optional: it changes how the record is written, not what it holds)
+        c.ensure("monitors_poolable_and_keyed_by_dt", z3.And(*[z3.And(z3.BoolVal(raw[n]["unique"] is False and "dt" in raw[n]["tags"] and set(raw[n]["tags"]) <= {"dt", "inplace"}), num(raw[n]["tags"]["dt"]) == dt.z if "dt" in raw[n]["tags"] else z3.BoolVal(False)) for n in table]))
+        c.canary("canary_pre_reads_delayed_spikes", table["spike_pre"]["attr"] == "connection.synspike")
+
+    return wiring
+
+
+for _prop in ("C18",):
+    _event_wiring(_prop, "DelayAdjustedSTDP", D2, "weight", False)
+    _event_wiring(_prop, "DelayAdjustedSTDPD", D2, "delay", False)
+    _event_wiring(_prop, "DelayAdjustedMSTDP", D3, "weight", False)
+    _event_wiring(_prop, "DelayAdjustedMSTDPD", D3, "delay", False)
+    _event_wiring(_prop, "DelayAdjustedKernelSTDP", KS, "weight", True)
+    _event_wiring(_prop, "DelayAdjustedKernelSTDPD", KS, "delay", True)
+
 MUTANTS = [
+    dict(file=D2, func="DelayAdjustedSTDP.register_cell", old='            "spike_pre",\n            "synapse.spike",', new='            "spike_pre",\n            "connection.synspike",', contracts=["DelayAdjustedSTDP.register_cell"], name="delay-adjusted rule fed with already delayed spikes (delay counted twice)"),
+    dict(file=D3, func="DelayAdjustedMSTDPD.register_cell", old='self._build_cell_state(**kwargs), ["delay"]', new='self._build_cell_state(**kwargs), ["weight"]', contracts=["DelayAdjustedMSTDPD.register_cell"]),
     dict(file=T3, func="MSTDPET.register_cell", old='subattrs=("trace_pre.latest", "spike_post.latest"),', new='subattrs=("trace_post.latest", "spike_post.latest"),', contracts=["MSTDPET.register_cell"]),
     dict(file=T3, func="MSTDPET.register_cell", old="                subattrs=(\"trace_pre.latest\", \"spike_post.latest\"),\n                prepend=False,", new="                subattrs=(\"trace_pre.latest\", \"spike_post.latest\"),\n                prepend=True,", contracts=["MSTDPET.register_cell"], name="eligibility monitor runs before the traces it reads"),
     dict(file=T2, func="TripletSTDP.register_cell", old="cell.connection.delayedby + cell.connection.dt", new="max(cell.connection.delayedby, 2 * cell.connection.dt)", contracts=["TripletSTDP.register_cell"], name="seed C08: slow pre trace record one slot short in delayed mode"),
